@@ -515,6 +515,41 @@ fn run(ctx: &RunCtx) -> Report {
             report.violate("liveness", "probe-call-did-not-finish", "a local API call issued after the barrage did not finish within 120 s".into());
         }
         report.probe("liveness_probes", 1);
+        // 1 run in 12 (own random stream): an *ageing tail* - one or two of the peers that answered so far fall
+        // silent for good; 21..26 virtual minutes later (they have gone stale and been dropped from the tables,
+        // possibly leaving a bucket empty) the victims must still walk their tables, answer and serve calls
+        let mut arng = Rng::new(crate::rng::key(ctx.seed, &[crate::rng::tag("c05-ageing-tail")]));
+        if report.violation.is_none() && arng.chance(1, 12) {
+            for _ in 0..arng.usize(1, 2) {
+                let i = arng.usize(0, n_peers - 1);
+                rawnet.with_peer(i, |p| p.silent = true);
+            }
+            sim.run_for(arng.range(21 * 60, 26 * 60) * SEC);
+            sim.raw_send(prober, sim.node_addr(server), krpc::query(&krpc::tid_bytes(8), "ping", krpc::ping_args(&[9u8; 20]), &MsgOpts::default()));
+            let q1 = sim.find_node(server, [0x33; 20]);
+            let q2 = sim.get_peers(client, info_hash);
+            let q3 = sim.bootstrapped(client);
+            let done = sim.run_ops(&[q1, q2, q3], sim.now() + 120 * SEC);
+            for v in victims {
+                if let Some(d) = sim.died(v) {
+                    report.violate("actor-panic", &format!("actor-panicked@{}", panic_site(&d)), format!("victim died {} after some of its peers went silent: {d}", "20-odd minutes"));
+                }
+            }
+            for (name, id) in [("find_node(server)", q1), ("get_peers(client)", q2), ("bootstrapped(client)", q3)] {
+                if let Some(p) = sim.with_op(id, |o| o.panicked.clone()) {
+                    report.violate("api-panic", &format!("api-panicked@{}", panic_site(&p)), format!("call {name} after the ageing tail panicked: {p}"));
+                }
+            }
+            let ponged = plog.borrow().iter().any(|(_, _, b)| Krpc::parse(b).map(|k| k.is_response() && k.tid_u32() == Some(8)).unwrap_or(false));
+            let ping_corrupted = sim.with_trace(|t| t.iter().any(|d| (d.src == prober || d.dst == prober) && (d.corrupted || d.fate != Fate::Delivered)));
+            if !ponged && !ping_corrupted && report.violation.is_none() {
+                report.violate("liveness", "no-ping-reply-after-ageing", "the server-mode victim did not answer a ping after the ageing tail".into());
+            }
+            if !done && report.violation.is_none() {
+                report.violate("liveness", "probe-call-did-not-finish", "a local API call issued after the ageing tail did not finish within 120 s".into());
+            }
+            report.probe("ageing_tail_runs", 1);
+        }
     }
     let delivered_hostile = sim.with_trace(|t| t.iter().filter(|d| d.from_host.is_none() && d.to_host.is_some() && d.consumed.is_some()).count());
     report.probe("hostile_or_scripted_datagrams_consumed", delivered_hostile as u64);
